@@ -213,6 +213,14 @@ def ob_table():
                               solver="none (finite concrete table)")
             return finish(ob, "inconclusive", None, detail="%d table entries fail (first: %s) but the real function satisfies the property on "
                           "12 pairs" % (len(bad), bad[0]), solver="none (finite concrete table)")
+        real_fails = [f for f in fails if f[1] != "no output"]
+        if real_fails:
+            # the property itself, evaluated on the real function's output at an input inside the quantifier, fails: reproduced
+            req, outp, why = real_fails[0]
+            return finish(ob, "violated", None, detail="table holds for the parsed literals, but the real StarkDomains::new violates the "
+                          "property natively at a seeded pair: %s" % why, cex={"request": req},
+                          replay_rec={"reproduced": True, "request": req, "real_output": outp, "expected": why},
+                          solver="none (finite concrete table)")
         if fails or not agree:
             return finish(ob, "inconclusive", None, detail="table holds for the parsed literals but the real StarkDomains::new disagrees with it "
                           "(encoding problem): %s" % (fails[:1],), solver="none (finite concrete table)")
